@@ -240,7 +240,8 @@ theorem flattenU_of_not_union : ∀ {L : List Ty}, (∀ t ∈ L, isUnion t = fal
     have ht : members t = [t] := by
       have := h t (by simp)
       cases t <;> simp_all [members, isUnion]
-    simp [flattenU, ht, flattenU_of_not_union (fun x hx => h x (by simp [hx]))]
+    have ih := flattenU_of_not_union (L := r) (fun x hx => h x (List.mem_cons_of_mem _ hx))
+    simp [flattenU, ht, ih]
 
 /-- normal form of `Union[X, null]` when `X` normalises to `x`: `OpTypes.orNull x` -/
 theorem norm_orNull {x : Ty} (hx : Good x) :
@@ -304,7 +305,7 @@ theorem norm_erase_treeTy (ns : String) : ∀ (t : OpTypes.SelTree) (nn : Bool),
     have hb : norm (erase (tsUnion (branchesTy ns bs))) = OpTypes.tsUnion (OpTypes.branchesTs (OpTypes.Refs.ofNs ns) bs) := by
       rw [← mkUnion_eq_opTypes]
       match hbs : branchesTy ns bs, ih with
-      | [], ih => simp [eraseList, normList] at ih; simp [tsUnion, erase, norm, ← ih, mkUnion]
+      | [], ih => simp [eraseList, normList] at ih; simp [tsUnion, erase, norm, ih, mkUnion]
       | [b], ih => simp [eraseList, normList] at ih; simp [tsUnion, ← ih, mkUnion]
       | a :: b :: r, ih =>
         simp only [tsUnion, erase, norm, ih]
@@ -349,7 +350,23 @@ theorem norm_erase_toTs (ns : String) (t : OpTypes.SelTree) : norm (erase (treeT
 /-- how the C09 model refers to an input type: `NS.__OperationInput.<name>` -/
 def inRef (ns : String) (n : Name) : Ty := .qref [ns, Target.operationInput.name, n]
 
-mutual
+theorem tsCore_not_union (leaf : Name → Ty) (hl : ∀ n, isUnion (leaf n) = false) (ro : Bool) :
+    ∀ t : GType, isUnion (SchemaDecls.tsCore leaf ro t) = false
+  | .named n _ => hl n
+  | .list t _ => by simp only [SchemaDecls.tsCore]; cases ro <;> rfl
+  | .nonNull t => by simpa [SchemaDecls.tsCore] using tsCore_not_union leaf hl ro t
+
+theorem members_of_not_union {x : Ty} (h : isUnion x = false) : members x = [x] := by
+  cases x <;> simp_all [members, isUnion]
+
+theorem members_prim (s : String) : members (.prim s) = [.prim s] := rfl
+theorem members_union (us : List Ty) : members (.union us) = us := rfl
+
+theorem mkUnion_pair {x y : Ty} (hx : isUnion x = false) (hy : isUnion y = false) :
+    mkUnion (flattenU [x, y]) = .union [x, y] := by
+  rw [flattenU_of_not_union (L := [x, y]) (by intro t ht; simp at ht; rcases ht with rfl | rfl <;> assumption)]
+  rfl
+
 theorem norm_erase_tsCore (ns : String) : ∀ t : GType,
     norm (erase (tsOfTypeImpl (inLeaf ns) t).1) = SchemaDecls.tsCore (inRef ns) false t ∧
     (tsOfTypeImpl (inLeaf ns) t).2 = !t.isNonNull
@@ -357,14 +374,48 @@ theorem norm_erase_tsCore (ns : String) : ∀ t : GType,
   | .list t _ => by
     obtain ⟨ih1, ih2⟩ := norm_erase_tsCore ns t
     refine ⟨?_, rfl⟩
+    have hc := tsCore_not_union (inRef ns) (fun _ => rfl) false t
     simp only [tsOfTypeImpl, SchemaDecls.tsCore]
-    cases hn : t.isNonNull <;>
-      simp_all [erase, eraseList, norm, normList, flattenU, members, mkUnion]
-    -- a nullable element: `Union[core, null]`; the core is not a union
-    all_goals sorry
+    cases hn : t.isNonNull
+    · simp only [hn, Bool.not_false] at ih2
+      simp only [ih2, if_true, erase, eraseList, norm, normList, ih1, Bool.false_eq_true, if_false]
+      rw [mkUnion_pair hc rfl]
+    · simp only [hn, Bool.not_true] at ih2
+      simp [ih2, erase, norm, ih1]
   | .nonNull t => by
     obtain ⟨ih1, _⟩ := norm_erase_tsCore ns t
     exact ⟨by simpa [tsOfTypeImpl, SchemaDecls.tsCore] using ih1, rfl⟩
-end
+
+theorem norm_erase_varField (ns : String) (oi : Bool) (d : VarDef) :
+    normFields (eraseFields [varField ns oi d]) = [VarTypes.varFieldL (inRef ns) oi d] := by
+  obtain ⟨h1, h2⟩ := norm_erase_tsCore ns d.ty
+  have hc := tsCore_not_union (inRef ns) (fun _ => rfl) false d.ty
+  simp only [varField, VarTypes.varFieldL, SchemaDecls.optFieldTy, SchemaDecls.tsOf, tsOfType]
+  cases hn : d.ty.isNonNull <;> cases oi
+  all_goals simp only [hn, Bool.not_false, Bool.not_true] at h2
+  all_goals
+    simp [h2, tsUnion, eraseFields, normFields, erase, eraseList, norm, normList, h1, flattenU, members_of_not_union hc,
+      members_prim, members_union, mkUnion]
+
+/-- the Variables type the printer builds, normalised, is the type of the C09 model (`VarTypes.varsTsL`) -/
+theorem norm_erase_varsTy (ns : String) (oi : Bool) (vars : List VarDef) :
+    norm (erase (varsTy ns oi vars)) = VarTypes.varsTsL (inRef ns) oi vars := by
+  simp only [varsTy, VarTypes.varsTsL, erase, norm]
+  congr 1
+  induction vars with
+  | nil => rfl
+  | cons d r ih =>
+    have h := norm_erase_varField ns oi d
+    simp only [List.map_cons]
+    cases hv : varField ns oi d with
+    | mk k kp ty ro opt desc =>
+      simp only [hv, eraseFields, normFields] at h ⊢
+      simp only [List.cons.injEq, and_true] at h
+      rw [h, ih]
+
+/-- with the default namespace this is C09's `varsTs` -/
+theorem norm_erase_varsTy_default (c : Cfg) (vars : List VarDef) :
+    norm (erase (varsTy VarTypes.schemaNs c.optionalInput vars)) = VarTypes.varsTs c vars :=
+  norm_erase_varsTy _ _ _
 
 end NitroVerif.PrintMap
